@@ -113,11 +113,12 @@ def run(ctx):
     runs = [
         ('cv_grid', dict(mode='cv', nobs=4, nch=2, nlab=2, nfold=2, vals='Vals01', methods=BOTH, rms=(False, True),
                          priorids=(1, 2), foldsrcs=('explicit', 'default'), emitmod=1 if thorough else 3), 0),
-        ('cv_cat6', dict(mode='cv', nobs=6, nch=2, nlab=3, nfold=3, datasrc='cat', dataids=(1, 2), methods=BOTH,
-                         rms=(False, True), precids=(0, 1), fprecids=(0, 1), priorids=(1,),
-                         foldsrcs=('explicit', 'default'), emitmod=2 if thorough else 8), 30),
-        ('cv_perm', dict(mode='cv', nobs=4, nch=2, nlab=2, nfold=3, datasrc='cat', dataids=(3,), methods=BOTH,
-                         rms=(False, True), precids=(0, 2), fprecids=(0, 2), priorids=(1, 3),
+        ('cv_cat6', dict(mode='cv', nobs=6, nch=2, nlab=3, nfold=3, datasrc='cat', dataids=(1, 2) if thorough else (2,),
+                         methods=BOTH, rms=(False, True), precids=(0, 1), fprecids=(0, 1), priorids=(1,),
+                         foldsrcs=('explicit', 'default'), emitmod=2 if thorough else 4), 30),
+        ('cv_perm', dict(mode='cv', nobs=4, nch=2, nlab=2, nfold=3 if thorough else 2, datasrc='cat', dataids=(3,),
+                         methods=BOTH, rms=(False, True), precids=(0, 2), fprecids=(0, 2),
+                         priorids=(1, 3) if thorough else (3,),
                          foldsrcs=('explicit', 'default'), permlevel=1, agree=True, emitmod=2), 0),
     ]
     if thorough:
